@@ -59,7 +59,7 @@ func (p *Program) calleePostMode(callee *FuncInfo, mode string) *postInfo {
 		if nres < 1 {
 			return pi
 		}
-		if b, ok := sig.Results().At(nres-1).Type().Underlying().(*types.Basic); !ok || b.Kind() != types.Bool {
+		if b, ok := sig.Results().At(nres - 1).Type().Underlying().(*types.Basic); !ok || b.Kind() != types.Bool {
 			return pi
 		}
 		for obj, idx := range p.stableParams(callee) {
